@@ -22,6 +22,40 @@ FLAG_FINDING = {"d_cache_failed_events": "C16-cache-fed-by-failed-tx", "d_cache_
                 "d_logout_reject_unpauses": "C16-logout-reject-unpauses-services"}
 
 
+# ----------------------------------------------------------------------------- blocks
+# a history is a list of operations; the marker [14, n] says that the next n operations share one block
+
+def to_blocks(h):
+    bs, i = [], 0
+    while i < len(h):
+        if h[i][0] == 14:
+            blk = [o for o in h[i + 1:i + 1 + h[i][1]] if o[0] != 14]
+            i += 1 + h[i][1]
+            if blk:
+                bs.append(blk)
+        else:
+            bs.append([h[i]])
+            i += 1
+    return bs
+
+
+def from_blocks(bs):
+    out = []
+    for b in bs:
+        if len(b) > 1:
+            out.append([14, len(b)])
+        out += b
+    return out
+
+
+def flat(h):
+    return [o for b in to_blocks(h) for o in b]
+
+
+def pack(*ops):
+    return [[14, len(ops)]] + [list(o) for o in ops]
+
+
 # ----------------------------------------------------------------------------- history -> Gallina
 
 def gop(o):
@@ -75,7 +109,8 @@ def gobs(s):
 
 def cfg_literal(known):
     # d_cache_not_reloaded is a fact of the code (the cache starts empty), harmless for gating on its own: always tried on and off
-    return "{| d_cache_failed_events := %s; d_cache_not_reloaded := true; d_logout_reject_unpauses := %s |}" % tuple(
+    # d_cache_deferred is not a fact of the code: never part of the current set
+    return "{| d_cache_failed_events := %s; d_cache_not_reloaded := true; d_logout_reject_unpauses := %s; d_cache_deferred := false |}" % tuple(
         gbool(FLAG_FINDING[f] in known) for f in ("d_cache_failed_events", "d_logout_reject_unpauses"))
 
 
@@ -88,9 +123,9 @@ def judge(ctx, pairs, known, tag="C16"):
     errs = []
 
     def work(k, idxs):
-        cases = glist([pairs[i] for i in idxs], lambda p: "(%s, %s)" % (glist(p[0], gop), glist(p[1], gobs)))
+        cases = glist([pairs[i] for i in idxs], lambda p: "(%s, %s)" % (glist(to_blocks(p[0]), lambda b: glist(b, gop)), glist(p[1], gobs)))
         src = ("From BX Require Import Base.Prelude Model.Gate Model.Lifecycle.\nFrom Coq Require Import String.\nLocal Open Scope string_scope.\nLocal Open Scope N_scope.\n"
-               "Definition cfg_current : cfg := %s.\nDefinition cases : list (list op * list obs) :=\n %s.\n"
+               "Definition cfg_current : cfg := %s.\nDefinition cases : list (list (list op) * list obs) :=\n %s.\n"
                "Definition M := Eval vm_compute in map (judge_hist cfg_current) cases.\nPrint M.\n") % (cfg_literal(known), cases)
         rc, out = vlib.coq_eval("%s_cases_%d_%d" % (tag, os.getpid(), k), src, timeout=1200)
         vs = vlib.parse_verdicts(out)
@@ -184,6 +219,30 @@ def gen_history(r, n):
     return ops[:n + 4]
 
 
+def pack_some(r, ops, p=0.35):
+    """put a deciding vote / a permission-only update / a chain or service operation into ONE block with the requests
+    that follow it (and, sometimes, one that precedes it).  Inside a block: requests on distinct (source, destination)
+    pairs; at most one operation that is not a request, so that relative proposal references mean the same before
+    and inside the block."""
+    out, i = [], 0
+    while i < len(ops):
+        o = ops[i]
+        nxt = ops[i + 1:i + 4]
+        if o[0] in (10, 4, 1, 3, 2) and nxt and nxt[0][0] == 12 and r.random() < p:
+            blk = [o, nxt[0]]
+            if len(nxt) > 1 and nxt[1][0] == 12 and nxt[1][1:] != nxt[0][1:] and r.random() < 0.6:
+                blk.append(nxt[1])
+            out += pack(*blk)
+            i += len(blk)
+        elif o[0] == 12 and len(nxt) > 1 and nxt[0][0] in (10, 4) and nxt[1][0] == 12 and nxt[1][1:] != o[1:] and r.random() < p / 2:
+            out += pack(o, nxt[0], nxt[1])
+            i += 3
+        else:
+            out.append(o)
+            i += 1
+    return out
+
+
 def rand_ibtp(r):
     src = r.choice(ALL_SVCS[:5])
     dst = r.choice([s for s in ALL_SVCS[:5] if s != src])
@@ -236,6 +295,34 @@ def scenario_histories():
                     [1, 2, 1], [10, 0, True], T, [12, 11, 20], [13], T])
     # withdraw, logout of a service and re-registration attempts
     out.append(S + [[3, 3, 10, []], T, [11, 0], T, [3, 3, 10, []], [10, 0, True], T, [12, 20, 10], [2, 1, 10, []], [3, 2, 10, []]])
+    out += packed_scenarios()
+    return out
+
+
+def packed_scenarios():
+    """the transition and the request it affects in ONE block, then in the next block, then after a restart"""
+    S = [[0, 1], [10, 0, True], [0, 2], [10, 0, True], [2, 1, 10, []], [10, 0, True], [2, 2, 20, []], [10, 0, True]]
+    S2 = S + [[2, 1, 11, []], [10, 0, True]]
+    T, B, U = [12, 10, 20], [12, 20, 10], [12, 11, 20]
+    A, R = [10, 0, True], [10, 0, False]
+    out = []
+    # (1) a deciding vote on a service proposal: freeze / activate / logout / update of the destination and of the source
+    for svc in (20, 10):
+        for ev in (1, 3, 0):
+            for dec in (A, R):
+                out.append(S + [T, [3, ev, svc, [10] if ev == 0 else []]] + pack(dec, T, B) + [T, B, [13], T, B])
+        out.append(S + [[3, 1, svc, []], A, [3, 2, svc, []]] + pack(A, T, B) + [T, [13], T])
+    # (2) the permission-only update of the destination
+    out.append(S + [T] + pack([4, 20, [10]], T) + [T, [13], T] + pack([4, 20, []], T) + [T])
+    out.append(S2 + pack(U, [4, 20, [10, 11]], T) + [U, T, [13], U] + pack(T, [4, 20, [11]], U) + [T, U])
+    # (3) appchain transitions: freeze approved, logout / update submitted, their decisions, activation
+    out.append(S + [[1, 1, 1]] + pack(A, T, B) + [T, B, [13], T, [1, 2, 1]] + pack(A, T, B) + [T])
+    out.append(S + pack([1, 3, 1], T, B) + [T] + pack(R, T, B) + [T, [13], T] + [[1, 3, 1]] + pack(A, T, B) + [T, B])
+    out.append(S + pack([1, 0, 1], T, B) + [T] + pack(A, T, B) + [T, [13], T] + pack([1, 0, 1], T) + pack(R, T) + [T])
+    out.append(S + pack([1, 1, 1], T) + pack(R, T) + [[7, 1, 1]] + pack(T, A, B) + [T])
+    # (4) a request before and one after the decision in the same block; a registration approved in the block of the first request
+    out.append(S2 + [[3, 1, 20, []]] + pack(T, A, U) + [T, U])
+    out.append(S + [[2, 1, 11, []]] + pack(A, U) + [U, [2, 2, 21, [10]]] + pack(A, [12, 10, 21], [12, 11, 21]))
     return out
 
 
@@ -399,11 +486,14 @@ def run(ctx):
     if vs is not None:
         reported = 0
         for hn, ((h, steps), v) in enumerate(zip(pairs, vs)):
+            fh = flat(h)
             outs_ = [s["out"] for s in steps if s["out"] in (0, 1, 2, 3)]
-            nontriv = any(s["ok"] for s, o in zip(steps, h) if o[0] != 12) and any(not s["ok"] for s in steps) or (0 in outs_ and (1 in outs_ or 2 in outs_))
+            nontriv = any(s["ok"] for s, o in zip(steps, fh) if o[0] != 12) and any(not s["ok"] for s in steps) or (0 in outs_ and (1 in outs_ or 2 in outs_))
             ctx.count(case_key=json.dumps(h), nontrivial=bool(nontriv), sample=dict(history=h[:12], verdict=v, last=steps[-1]) if hn % 37 == 0 else None)
             ctx.traces_validated += 1
-            for o, s in zip(h, steps):
+            if len(fh) != len(h):
+                dist["packed_blocks"] = dist.get("packed_blocks", 0) + sum(1 for o in h if o[0] == 14)
+            for o, s in zip(fh, steps):
                 dist["ops"][str(o[0])] = dist["ops"].get(str(o[0]), 0) + 1
                 if o[0] == 12:
                     dist["outcomes"][str(s["out"])] = dist["outcomes"].get(str(s["out"]), 0) + 1
@@ -444,7 +534,7 @@ def run_one(ctx, exe, h, known, audit=False):
 
 
 def shrink(ctx, exe, rep, known):
-    """delta debugging on the operation list; proposal references are relative, so removing operations keeps a history meaningful"""
+    """delta debugging on the list of blocks; proposal references are relative, so removing operations keeps a history meaningful"""
     h = rep["history"]
     want_kind = classify(rep["verdict"], known)[0]
     want_w = rep["verdict"][1] // 100000 if rep["verdict"][0] == 2 else None
@@ -458,16 +548,18 @@ def shrink(ctx, exe, rep, known):
         k, _ = classify(v, known)
         return k == want_kind and (want_w is None or (v[0] == 2 and v[1] // 100000 == want_w))
 
+    # whole blocks first, then single transactions out of packed blocks, then unpacking
+    bs = to_blocks(h)
     n = 2
     budget = 40
-    while len(h) >= 2 and budget > 0:
-        chunk = max(1, len(h) // n)
+    while len(bs) >= 2 and budget > 0:
+        chunk = max(1, len(bs) // n)
         removed = False
-        for i in range(0, len(h), chunk):
+        for i in range(0, len(bs), chunk):
             budget -= 1
-            cand = h[:i] + h[i + chunk:]
-            if cand and fails(cand):
-                h = cand
+            cand = bs[:i] + bs[i + chunk:]
+            if cand and fails(from_blocks(cand)):
+                bs = cand
                 n = max(n - 1, 2)
                 removed = True
                 break
@@ -476,7 +568,23 @@ def shrink(ctx, exe, rep, known):
         if not removed:
             if chunk == 1:
                 break
-            n = min(n * 2, len(h))
+            n = min(n * 2, len(bs))
+    for bi in range(len(bs)):
+        j = 0
+        while len(bs[bi]) > 1 and j < len(bs[bi]) and budget > -12:
+            budget -= 1
+            cand = bs[:bi] + [bs[bi][:j] + bs[bi][j + 1:]] + bs[bi + 1:]
+            if fails(from_blocks(cand)):
+                bs = cand
+            else:
+                j += 1
+    for bi in range(len(bs) - 1, -1, -1):
+        if len(bs[bi]) > 1 and budget > -20:
+            budget -= 1
+            cand = bs[:bi] + [[o] for o in bs[bi]] + bs[bi + 1:]
+            if fails(from_blocks(cand)):
+                bs = cand
+    h = from_blocks(bs)
     v, steps = run_one(ctx, exe, h, known, audit)
     rep["history"] = h
     if v is not None:
@@ -498,7 +606,7 @@ def replay(ctx, path):
     if v is None:
         print(json.dumps(dict(replay=path, error="driver or judge failed")))
         return 1
-    for o, s in zip(obj["history"], steps):
+    for o, s in zip(flat(obj["history"]), steps):
         print(json.dumps(dict(op=o, ok=s["ok"], out=s["out"], chains=s["chains"], svcs=[(x[0], x[2], x[3]) for x in s["svcs"]], cache=[(x[0], x[2]) for x in s["cache"]])))
     print(json.dumps(dict(verdict=v, reading=classify(v, known))))
     return 0 if v[0] == 0 else 1
